@@ -319,7 +319,7 @@ def _compare_behaviour(builds, shard, name, res: Result, w0):
         trees += [(mi, g.tree(mi, 0, "random")) for _ in range(max(2, shard["n"] // len(msgs)))]
     for mi, tree in trees:
         try:
-            m0 = bp0.make(mi, tree)
+            m0 = BP(b0).make(mi, tree)
             want_bytes = bytes(m0)
         except Exception:
             res.note("default-variant-cannot-build-value")
@@ -328,6 +328,17 @@ def _compare_behaviour(builds, shard, name, res: Result, w0):
             want_json = m0.to_json()
         except Exception:
             want_json = None
+        # decode direction of the default configuration (what the same bytes / JSON text turn into)
+        try:
+            d0 = type(m0)().parse(want_bytes)
+            want_dec = (bytes(d0), _safe_json(d0))
+        except Exception:
+            want_dec = None
+        try:
+            j0 = type(m0)().from_json(want_json) if want_json is not None else None
+            want_jdec = bytes(j0) if j0 is not None else None
+        except Exception:
+            want_jdec = None
         for cfg, b in builds.items():
             if cfg == base_cfg:
                 continue
@@ -360,6 +371,28 @@ def _compare_behaviour(builds, shard, name, res: Result, w0):
                 continue
             if got != want_bytes:
                 res.violation("behaviour", [cfg_sig, "bytes-differ", "-", "-"], f"{name} [{cfg}]: {mi.full_name}: {want_bytes.hex()[:120]} vs {got.hex()[:120]}", w)
+            if want_dec is not None:
+                res.counters["decode_compared"] += 1
+                try:
+                    d1 = type(m1)().parse(want_bytes)
+                    got_dec = (bytes(d1), _safe_json(d1))
+                    if got_dec != want_dec:
+                        what = "bytes" if got_dec[0] != want_dec[0] else "json"
+                        res.violation("behaviour", [cfg_sig, "decode-differs:" + what, "-", "-"],
+                                      f"{name} [{cfg}]: {mi.full_name}: parse({want_bytes.hex()[:80]}) re-encodes / prints differently: "
+                                      f"{str(want_dec)[:160]} vs {str(got_dec)[:160]}", w)
+                except Exception as e:
+                    res.violation("behaviour", [cfg_sig, "parse-raised:" + type(e).__name__, "-", "-"],
+                                  f"{name} [{cfg}]: {mi.full_name}: parse of the default configuration's bytes: {e!r}", w)
+            if want_jdec is not None:
+                try:
+                    j1 = type(m1)().from_json(want_json)
+                    if bytes(j1) != want_jdec:
+                        res.violation("behaviour", [cfg_sig, "from_json-differs", "-", "-"],
+                                      f"{name} [{cfg}]: {mi.full_name}: from_json({want_json[:100]}) encodes to {bytes(j1).hex()[:80]} vs {want_jdec.hex()[:80]}", w)
+                except Exception as e:
+                    res.violation("behaviour", [cfg_sig, "from_json-raised:" + type(e).__name__, "-", "-"],
+                                  f"{name} [{cfg}]: {mi.full_name}: from_json of the default configuration's JSON: {e!r}", w)
             if want_json is not None:
                 try:
                     gj = m1.to_json()
@@ -367,6 +400,13 @@ def _compare_behaviour(builds, shard, name, res: Result, w0):
                         res.violation("behaviour", [cfg_sig, "json-differs", "-", "-"], f"{name} [{cfg}]: {mi.full_name}: {want_json[:150]} vs {gj[:150]}", w)
                 except Exception as e:
                     res.violation("behaviour", [cfg_sig, "to_json-raised:" + type(e).__name__, "-", "-"], f"{name} [{cfg}]: {mi.full_name}: {e!r}", w)
+
+
+def _safe_json(m):
+    try:
+        return m.to_json()
+    except Exception as e:
+        return "raised:" + type(e).__name__
 
 
 def replay(w):
